@@ -1,6 +1,7 @@
 package gen
 
 import (
+	"bytes"
 	"crypto/sha256"
 	"crypto/x509"
 	"encoding/binary"
@@ -115,6 +116,7 @@ type World struct {
 	AttKey        *Key
 	Q             *RefQuote // quote fields; signatures, chain and sizes are filled by Build
 	ChainNUL      bool
+	ChainStyle    string // "" | "crlf" | "blank-lines-between-blocks" | "no-final-newline": other legal ways of writing the PEM chain
 	ChainOverride []byte // use these chain bytes instead of leaf||int||root
 
 	TcbInfo TcbInfoDoc
@@ -277,6 +279,14 @@ func (w *World) SignQuote() {
 		q.Chain = append([]byte{}, w.ChainOverride...)
 	} else {
 		q.Chain = ChainPEM(w.Leaf, w.PKI.Int, w.PKI.Root)
+		switch w.ChainStyle {
+		case "crlf":
+			q.Chain = bytes.ReplaceAll(q.Chain, []byte("\n"), []byte("\r\n"))
+		case "blank-lines-between-blocks":
+			q.Chain = bytes.ReplaceAll(q.Chain, []byte("-----END CERTIFICATE-----\n-----BEGIN"), []byte("-----END CERTIFICATE-----\n\n-----BEGIN"))
+		case "no-final-newline":
+			q.Chain = bytes.TrimRight(q.Chain, "\n")
+		}
 		if w.ChainNUL {
 			q.Chain = append(q.Chain, 0)
 		}
@@ -338,7 +348,7 @@ func (w *World) BuildCollateral() {
 	w.Resp[TcbInfoURL(w.FmspcHex())] = w.TcbInfoResponse()
 	w.Resp[QeIdentityURL] = w.QeIDResponse()
 	mk := func(c *Cert, cs CRLSpec, noNumber bool) []byte {
-		if !w.CRLIssuerUTF8 && !noNumber {
+		if !w.CRLIssuerUTF8 && !noNumber && len(cs.RevokedRaw) == 0 {
 			return MakeCRL(c, c.Key, cs)
 		}
 		var raw []byte
